@@ -2,6 +2,11 @@
 from . import ex
 
 
+# Records that are accessed through a common-prefix base record (checked by C04-CAST: the
+# derived records begin with exactly the fields of the base).
+SLOT_FAMILY = {"lzma_filter_decoder": "lzma_filter_coder", "lzma_filter_encoder": "lzma_filter_coder"}
+
+
 class CallGraph:
     def __init__(self, prog, target=None):
         self.prog = prog
@@ -41,12 +46,15 @@ class CallGraph:
             return
         if n.get("k") == "init":
             fields = n.get("fields")
-            ty = n.get("ty", "")
+            rec = n.get("rec") or self._ty_rec(n.get("ty", ""))
             for i, e in enumerate(n["e"]):
                 fr = self._fnref(e)
                 if fr and fields and i < len(fields):
-                    self.slots.setdefault((self._ty_rec(ty), fields[i]), set()).add(fr)
+                    self.slots.setdefault((rec, fields[i]), set()).add(fr)
                     self.slots.setdefault(("*", fields[i]), set()).add(fr)
+                    fam = SLOT_FAMILY.get(rec.split("@")[0])
+                    if fam:
+                        self.slots.setdefault((fam, fields[i]), set()).add(fr)
                 else:
                     self._collect_init(e)
 
@@ -138,6 +146,109 @@ class CallGraph:
         if t is None:
             t = self.slots.get(("*", fk[1]), set())
         return t
+
+    # ---- typestate of lzma_next_coder objects: which init function filled the slot ----------
+    def _code_of_init(self, name, seen=None):
+        """`code` functions that init function `name` can store into the lzma_next_coder it
+        receives as its first parameter (directly or by passing it on)."""
+        cache = self.__dict__.setdefault("_coi", {})
+        if name in cache:
+            return cache[name]
+        seen = seen or set()
+        if name in seen:
+            return set()
+        seen = seen | {name}
+        out = set()
+        for f in self.by_name.get(name, []):
+            if not f.params:
+                continue
+            p0 = f.params[0]["n"]
+            for b, i, e in f.iter_elems():
+                for (l, r, op, node) in ex.writes(e):
+                    ls = ex.strip(l)
+                    if ls is not None and ls.get("k") == "mem" and ls["f"] == "code" and \
+                            ls.get("rec") == "lzma_next_coder_s":
+                        bs = ex.strip(ls["b"])
+                        if bs is not None and bs.get("k") == "var" and bs["n"] == p0:
+                            fr = self._fnref(r)
+                            if fr:
+                                out.add(fr)
+                for c in ex.calls(e, into_refs=False):
+                    if not c["args"]:
+                        continue
+                    a0 = ex.strip(c["args"][0])
+                    if a0 is None or a0.get("k") != "var" or a0["n"] != p0:
+                        continue
+                    if c.get("fn"):
+                        out |= self._code_of_init(c["fn"], seen)
+                    else:
+                        cal = ex.strip(c.get("callee"))
+                        fk = ex.field_key(cal)
+                        if fk and fk[1] == "init":
+                            for t in self.slot_targets(fk):
+                                out |= self._code_of_init(t, seen)
+        if len(seen) == 1:
+            cache[name] = out
+        return out
+
+    def narrow_code_targets(self, fn, call):
+        """For a call `OBJ.code(...)` / `OBJ->code(...)` on an lzma_next_coder object: the code
+        functions of the init functions that were given &OBJ; None if unknown."""
+        from .resume import lvpath
+        cal = ex.strip(call.get("callee"))
+        if cal is not None and cal.get("k") == "un" and cal["op"] == "*":
+            cal = ex.strip(cal["e"])
+        if cal is None or cal.get("k") != "mem" or cal["f"] != "code" or cal.get("rec") != "lzma_next_coder_s":
+            return None
+        obj = ex.strip(cal["b"])
+        okey = None
+        if obj is not None and obj.get("k") == "mem":
+            okey = ("field", obj.get("rec"), obj["f"])
+        elif obj is not None and obj.get("k") == "var" and obj.get("s") == "l":
+            okey = ("local", fn.key, obj["n"])
+        if okey is None:
+            return None
+        idx = self.__dict__.setdefault("_initsites", None)
+        if idx is None:
+            idx = {}
+            for f in self.fns:
+                for b, i, e in f.iter_elems():
+                    for c in ex.calls(e, into_refs=False):
+                        if not c["args"]:
+                            continue
+                        a0 = ex.strip(c["args"][0])
+                        if a0 is None or a0.get("k") != "un" or a0["op"] != "&":
+                            continue
+                        t = ex.strip(a0["e"])
+                        if t is None:
+                            continue
+                        if t.get("k") == "mem":
+                            k = ("field", t.get("rec"), t["f"])
+                        elif t.get("k") == "var" and t.get("s") == "l":
+                            k = ("local", f.key, t["n"])
+                        else:
+                            continue
+                        idx.setdefault(k, []).append(c)
+            self._initsites = idx
+        out = set()
+        found = False
+        for c in idx.get(okey, ()):
+            nm = c.get("fn")
+            if nm:
+                cs = self._code_of_init(nm)
+                if cs:
+                    found = True
+                    out |= cs
+            else:
+                cal2 = ex.strip(c.get("callee"))
+                fk = ex.field_key(cal2)
+                if fk and fk[1] == "init":
+                    for t in self.slot_targets(fk):
+                        cs = self._code_of_init(t)
+                        if cs:
+                            found = True
+                            out |= cs
+        return out if found else None
 
     def callees(self, f):
         """Names of functions f may call (direct + slots)."""
